@@ -893,9 +893,16 @@ impl Exec {
                     std::process::exit(3);
                 }
                 self.panics += 1;
-                let mut ev = op.clone();
-                ev["r"] = json!({"panic": msg});
-                vec![ev]
+                // a panic inside commit/abort has consumed the transaction: keep the event shape
+                match op["e"].as_str() {
+                    Some("commit") => vec![json!({"e": "cbegin"}), json!({"e": "cend", "r": {"panic": msg}})],
+                    Some("abort" | "dropw") => vec![json!({"e": "abort", "r": {"panic": msg}})],
+                    _ => {
+                        let mut ev = op.clone();
+                        ev["r"] = json!({"panic": msg});
+                        vec![ev]
+                    }
+                }
             }
         };
         let b1 = self.store.log_len();
